@@ -956,6 +956,160 @@ Definition m_reshape (a b : val) : res :=
   | _ => Unmod
   end.
 
+(* ------------------------------------------------------------------ Shape, Transpose, Not, Grade, Group, Range *)
+(* the shape of `_a(x)`: strings (and the str subclasses KGChar, KGSym) are replaced by np.empty(len), lists recurse,
+   np.asarray of members of different shapes raises ValueError *)
+Fixpoint ashape (v : val) : result (list nat) :=
+  match v with
+  | VL l =>
+      let shapes := (fix go (l : list val) : result (list (list nat)) :=
+                       match l with
+                       | [] => Ok []
+                       | y :: r => bind (ashape y) (fun sh => bind (go r) (fun shs => Ok (sh :: shs)))
+                       end) l in
+      bind shapes (fun shs =>
+        match shs with
+        | [] => Ok [O]
+        | sh :: rest => if forallb (list_eqb Nat.eqb sh) rest then Ok (List.length l :: sh) else Err
+        end)
+  | VS s | VY s => Ok [List.length s]
+  | VC _ => Ok [1%nat]
+  | _ => Ok []
+  end.
+
+Definition m_shape (a : val) : res :=
+  match a with
+  | VS [] | VL [] => Ok (VI 0)
+  | VS s => Ok (VL [VI (zlen s)])
+  | VL _ => bind (ashape a) (fun sh => Ok (VL (map (fun d => VI (Z.of_nat d)) sh)))
+  | _ => Ok (VI 0)
+  end.
+
+(* np.transpose(np.asarray(a)) *)
+Definition m_transpose (a : val) : res :=
+  match a with
+  | VL l =>
+      match rshape a with
+      | Some [r; c] => Ok (VL (map (fun j => VL (map (fun i => nth j (match nth i l VU with VL row => row | _ => [] end) VU) (seq 0 r))) (seq 0 c)))
+      | Some [_] => Ok a
+      | Some _ => Unmod
+      | None => if canonical a then Ok a else Unmod
+      end
+  | VC c => Ok (VS [c])     (* np.asarray of a str subclass is a '<U' scalar *)
+  | VY s => Ok (VS s)
+  | _ => Ok a
+  end.
+
+Definition sc_not (x : val) : res :=
+  match x with
+  | VI z => Ok (b2v (z =? 0))
+  | VR r => Ok (b2v (is_real_zero r))
+  | VS [] => Ok (VI 1)
+  | VC _ | VS _ | VY _ => Ok (VI 0)
+  | _ => Unmod
+  end.
+Definition m_not (a : val) : res :=
+  if is_empty a then Ok (VI 1)
+  else vec1 (S (depth a)) (fun x => if is_empty x then Ok (VI 1) else leaf1 sc_not x) a.
+
+(* stable insertion sort of (key, index) pairs *)
+Section Sort.
+  Context {K : Type} (leb : K -> K -> bool).
+  Fixpoint insert_by (x : K * nat) (l : list (K * nat)) : list (K * nat) :=
+    match l with
+    | [] => [x]
+    | y :: r => if leb (fst y) (fst x) && negb (leb (fst x) (fst y)) then y :: insert_by x r else x :: l
+    end.
+  Fixpoint sort_by (l : list (K * nat)) : list (K * nat) :=
+    match l with [] => [] | x :: r => insert_by x (sort_by r) end.
+End Sort.
+
+Definition num_leb (a b : val) : bool :=
+  match a, b with
+  | VI x, VI y => x <=? y
+  | VI x, VR y => SFleb (rofZ x) y
+  | VR x, VI y => SFleb x (rofZ y)
+  | VR x, VR y => SFleb x y
+  | _, _ => false
+  end.
+
+Definition with_index {K} (l : list K) : list (K * nat) := combine l (seq 0 (List.length l)).
+
+(* kg_argsort: ascending stable order of the indices; descending = the reversed ascending order *)
+Definition m_grade (descending : bool) (a0 : val) : res :=
+  let a := match a0 with VC c => VS [c] | VY s => VS s | _ => a0 end in   (* KGChar, KGSym are str *)
+  let fin (idx : list nat) := Ok (VL (map (fun i => VI (Z.of_nat i)) (if descending then rev idx else idx))) in
+  match a with
+  | VS [] | VL [] => Ok (match a with VS _ => VL [] | _ => a end)
+  | VS s => fin (map snd (sort_by Z.leb (with_index s)))
+  | VL l =>
+      match rshape a with
+      | Some [_] => fin (map snd (sort_by num_leb (with_index l)))
+      | _ => Unmod
+      end
+  | _ => Ok a
+  end.
+
+(* np.unique(arr, return_inverse=True): the groups come in sorted order of the values *)
+Fixpoint positions_of {K} (eqb : K -> K -> bool) (k : K) (i : nat) (l : list K) : list val :=
+  match l with
+  | [] => []
+  | x :: r => (if eqb x k then [VI (Z.of_nat i)] else []) ++ positions_of eqb k (S i) r
+  end.
+Fixpoint dedup_sorted {K} (eqb : K -> K -> bool) (l : list K) : list K :=
+  match l with
+  | x :: ((y :: _) as r) => if eqb x y then dedup_sorted eqb r else x :: dedup_sorted eqb r
+  | other => other
+  end.
+Definition m_group (a : val) : res :=
+  match a with
+  | VS [] | VL [] => Ok (VL [])
+  | VS s =>
+      let keys := dedup_sorted Z.eqb (map fst (sort_by Z.leb (with_index s))) in
+      Ok (VL (map (fun k => VL (positions_of Z.eqb k 0 s)) keys))
+  | VL l =>
+      match rshape a with
+      | Some [_] =>
+          let keys := dedup_sorted num_eqb (map fst (sort_by num_leb (with_index l))) in
+          Ok (VL (map (fun k => VL (positions_of num_eqb k 0 l)) keys))
+      | _ => Unmod
+      end
+  | _ => Unmod
+  end.
+
+Fixpoint val_same (a b : val) {struct a} : bool :=
+  match a, b with
+  | VI x, VI y => x =? y
+  | VR x, VR y => bits_of_real x =? bits_of_real y
+  | VC x, VC y => x =? y
+  | VS s, VS t => zs_eqb s t
+  | VY s, VY t => zs_eqb s t
+  | VU, VU => true
+  | VL la, VL lb =>
+      (fix go (la lb : list val) : bool :=
+         match la, lb with
+         | [], [] => true
+         | x :: la', y :: lb' => val_same x y && go la' lb'
+         | _, _ => false
+         end) la lb
+  | _, _ => false
+  end.
+
+Fixpoint dedup_by {K} (eqb : K -> K -> bool) (seen : list K) (l : list K) : list K :=
+  match l with
+  | [] => []
+  | x :: r => if existsb (eqb x) seen then dedup_by eqb seen r else x :: dedup_by eqb (x :: seen) r
+  end.
+
+(* eval_monad_range *)
+Definition m_range (a0 : val) : res :=
+  let a := match a0 with VC c => VS [c] | VY s => VS s | _ => a0 end in   (* KGChar, KGSym are str *)
+  match a with
+  | VS s => Ok (VS (dedup_sorted Z.eqb (map fst (sort_by Z.leb (with_index s)))))
+  | VL l => if canonical a then Ok (norm (VL (dedup_by val_same [] l))) else Unmod
+  | _ => Ok a
+  end.
+
 (* ------------------------------------------------------------------ dispatch by Python function name *)
 Open Scope string_scope.
 
@@ -972,6 +1126,13 @@ Definition m_monad (f : string) (a : val) : res :=
   if f =? "eval_monad_reciprocal" then m_recip a else
   if f =? "eval_monad_reverse" then m_reverse a else
   if f =? "eval_monad_size" then m_size a else
+  if f =? "eval_monad_shape" then m_shape a else
+  if f =? "eval_monad_transpose" then m_transpose a else
+  if f =? "eval_monad_not" then m_not a else
+  if f =? "eval_monad_grade_up" then m_grade false a else
+  if f =? "eval_monad_grade_down" then m_grade true a else
+  if f =? "eval_monad_groupby" then m_group a else
+  if f =? "eval_monad_range" then m_range a else
   Unmod.
 
 Definition m_dyad (f : string) (a b : val) : res :=
@@ -1001,7 +1162,9 @@ Definition m_dyad (f : string) (a b : val) : res :=
 
 Definition modelled_monads : list string :=
   ["eval_monad_atom"; "eval_monad_char"; "eval_monad_enumerate"; "eval_monad_expand_where"; "eval_monad_first";
-   "eval_monad_floor"; "eval_monad_list"; "eval_monad_negate"; "eval_monad_reciprocal"; "eval_monad_reverse"; "eval_monad_size"].
+   "eval_monad_floor"; "eval_monad_list"; "eval_monad_negate"; "eval_monad_reciprocal"; "eval_monad_reverse"; "eval_monad_size";
+   "eval_monad_shape"; "eval_monad_transpose"; "eval_monad_not"; "eval_monad_grade_up"; "eval_monad_grade_down";
+   "eval_monad_groupby"; "eval_monad_range"].
 Definition modelled_dyads : list string :=
   ["eval_dyad_add"; "eval_dyad_subtract"; "eval_dyad_multiply"; "eval_dyad_divide"; "eval_dyad_minimum"; "eval_dyad_maximum";
    "eval_dyad_remainder"; "eval_dyad_integer_divide"; "eval_dyad_less"; "eval_dyad_more"; "eval_dyad_equal";
